@@ -113,9 +113,9 @@ def run(ctx):
     ctx.cov["hook_emission_probe"] = hp
     if hp.get("reproduced") and hp.get("observed"):
         ctx.violation("events of concurrently running hooks reach the peer in the wrong order: client c1 drops the last reference to "
-                      "topic t (OnUnsubscribed: counter updated, event not yet queued) while client c2 subscribes to t (counter "
+                      "topic t (%s: counter updated, event not yet queued) while client c2 subscribes to t (counter "
                       "updated and event queued); queued for the peer: %s; after the stream has drained: %s" % (
-                          hp.get("queued"), hp.get("observed")),
+                          hp.get("hook", "OnUnsubscribed"), hp.get("queued"), hp.get("observed")),
                       {"signature": "C16:hook_emission_not_atomic", "kind": "fedstream-probe", "probe": "hookrace",
                        "replay": "harness/cmd/fedstream -probe hookrace", "result": hp})
     elif hp.get("model_violation") and hp.get("window") != "closed":
